@@ -10,19 +10,31 @@ correspondence, not proved).
 
 FULL statement (not proved in this generality — and FALSE for the unchanged code, see the
 `_fails` theorems):   ∀ t, parseTop (print .top t) = some t.
-Proved: the statement for the core fragment (`Core`: holes, constructors, generics, `(->)`,
-explicit/implicit functions, `forall`, applications), in the generalised form "every needed
-parenthesis is printed" (`parse_print_*_partial`), its corollaries, and universal / concrete
-witnesses of the ways the full statement fails.  Records, tuples, variants and effect rows are
-covered by the executable model + exact correspondence + oracle only.
+Proved (`_partial`): the statement for the fragment `Core` — holes, constructors, generics,
+`(->)`, explicit/implicit functions, `forall`, applications, records with value fields (operator
+names in parentheses; closed or with a row-variable tail; brace syntax or tuple syntax of arity 0
+and ≥ 2 as `is_tuple` decides) — in the generalised form "every needed parenthesis is printed"
+(`parse_print_*_partial`), its corollaries, and for variants at the top of a type binding
+(`roundtrip_variant_top_partial`: simple and GADT-style constructors over `Core`, `.. r` tail);
+plus universal / concrete witnesses of the ways the full statement fails.
+Still only covered by the executable model + exact correspondence + oracle: type fields in
+records, effect rows, projections (`a.b.C`), and everything nested inside them.
 
 Only property theorems live here; lemmas are in `GluonModel.Proofs.TypePrint`.
 -/
 import GluonModel.TypePrint
-import GluonModel.Proofs.TypePrint
+import GluonModel.Proofs.TypeRows
+import GluonModel.Proofs.TypeVariants
 
 namespace GluonModel.Props.C18
-open GluonModel.TypePrint GluonModel.Proofs.TypePrint
+open GluonModel.TypePrint GluonModel.Proofs.TypeRows GluonModel.Proofs.TypeVariants
+
+/-- The fragment for which the round trip is proved (`GluonModel.Proofs.TypeRows.core`): holes,
+    constructors, generics, `(->)`, explicit and implicit functions, `forall`, applications with a
+    constructor / variable / application head, and records with value fields (any field names
+    that do not start upper-case, operators included) whose row is one `ExtendRow` node, closed
+    or ending in a row variable — printed with braces or, when `is_tuple` holds, as a tuple. -/
+def Core (t : Ty) : Prop := core t
 
 /-- What may follow a type printed at `Prec::Top` without being absorbed into it: not `.`
     (projection), not the start of an atomic type (application argument), not `->`. -/
@@ -53,7 +65,7 @@ theorem parse_print_constructor_arg_partial (t : Ty) (hc : Core t) (fuel : Nat) 
 /-- Round trip through the entry point used for `let _ : <type> = …`. -/
 theorem roundtrip_annotation_partial (t : Ty) (hc : Core t) : parseAnn (print .top t) = some t := by
   have h := parse_print_top_partial t hc (fuelFor (print .top t)) []
-    (by have := (need_le_tokens t hc).1; unfold fuelFor; omega) ⟨trivial, trivial, trivial⟩
+    (by have := need_le_tokens t hc; unfold fuelFor; omega) ⟨trivial, trivial, trivial⟩
   simp only [List.append_nil] at h
   simp [parseAnn, h]
 
@@ -61,37 +73,25 @@ theorem roundtrip_annotation_partial (t : Ty) (hc : Core t) : parseAnn (print .t
 theorem roundtrip_type_binding_partial (t : Ty) (hc : Core t) (hnf : ∀ vs b, t ≠ .all vs b) :
     parseTop (print .top t) = some t := by
   have h := parse_print_top_partial t hc (fuelFor (print .top t)) []
-    (by have := (need_le_tokens t hc).1; unfold fuelFor; omega) ⟨trivial, trivial, trivial⟩
-  simp only [List.append_nil] at h
-  have hok : ∀ l, HeadOK l → pTop (fuelFor l) l = pType (fuelFor l) l := by
-    intro l hl
-    match l, hl with
-    | .id s :: ts, _ => simp only [pTop]
-    | .lparen :: ts, _ => simp only [pTop]
-  have hTop : pTop (fuelFor (print .top t)) (print .top t)
-      = pType (fuelFor (print .top t)) (print .top t) := by
-    cases hc with
-    | all v vs b _ => exact absurd rfl (hnf _ _)
-    | fn i a r ha hr =>
-      cases i
-      · apply hok
-        have := headOK_fun a ha ([.arrow] ++ print .top r)
-        rw [print_fn, enclose_top _ _ (by decide)]
-        simpa using this
-      · have e : print .top (.fn true a r)
-            = .lbracket :: (print .function a ++ [.rbracket] ++ [.arrow] ++ print .top r) := by
-          rw [print_fn, enclose_top _ _ (by decide)]; simp
-        rw [e]; simp only [pTop]
-    | hole => exact hok _ (by simp [HeadOK])
-    | arrow => exact hok _ (by simp [HeadOK])
-    | con n _ => exact hok _ (by simp [HeadOK])
-    | var n _ => exact hok _ (by simp [HeadOK])
-    | app f a hf hlf ha =>
-      have := headOK_headLike _ (Core.app f a hf hlf ha) rfl []
-      simp only [List.append_nil] at this
-      exact hok _ this
+    (by have := need_le_tokens t hc; unfold fuelFor; omega) ⟨trivial, trivial, trivial⟩
+  obtain ⟨tok, ts, e, hs⟩ := head_top_atom t hc hnf []
+  simp only [List.append_nil] at h e
   unfold parseTop
-  rw [hTop, h]
+  rw [e, pTop_atomStart _ _ _ hs, ← e, h]
+
+/-- A variant with at least one constructor at the top of a type binding (`VariantType` inside
+    `TypeTop`): constructors named upper-case, in simple form (`| C a b`, arguments from `Core`,
+    printed at `Prec::Constructor`) or GADT form (`| C : type`, a `Core` type whose spine has no
+    implicit argument), closed or with a `.. r` tail — reads back. -/
+theorem roundtrip_variant_top_partial (row : Ty) (h : vrowOK row)
+    (hne : ∃ c t rest, row = .rfield c t rest) :
+    parseTop (print .top (.variant row)) = some (.variant row) :=
+  parseTop_variant row h hne
+
+/-- … and the variant that is only a row variable, `.. r`. -/
+theorem roundtrip_variant_tail_partial (r : String) (h : classify r = .var r) :
+    parseTop (print .top (.variant (.var r))) = some (.variant (.var r)) :=
+  parseTop_variant_tail r h
 
 /-- Hence no two different core types share a rendering. -/
 theorem print_injective_partial (t₁ t₂ : Ty) (h₁ : Core t₁) (h₂ : Core t₂)
@@ -136,23 +136,51 @@ theorem forall_variant_unparsable_fails :
       = [.kwForall, .id "a", .dot, .pipe, .id "A", .id "a"] by simp +decide [print, printTypes, printFields, rowTail, typesLen, fieldsLen, identToks, printVariant, ctorArgs, enclose]]
   decide
 
-/-- FINDING `misread:rec[_0:C;]`: `is_tuple` (mod.rs:2576) also holds for a one-field record
-    `{ _0 : Int }`, which is therefore printed `(Int)` and read back as `Int`. -/
-theorem tuple1_misread_fails :
-    parseAnn (print .top (.record 1 (.rfield "_0" (.con "Int") .rnil))) = some (.con "Int") := by
-  rw [show print .top (.record 1 (.rfield "_0" (.con "Int") .rnil))
-      = [.lparen, .id "Int", .rparen] by simp +decide [print, printTypes, printFields, rowTail, typesLen, fieldsLen, identToks, printVariant, ctorArgs, enclose]]
-  decide
-
-/-- FINDING `unparsable:rec[|C]`: `is_tuple` ignores the row tail, so the open record `{ | r }`
-    is printed `( | r)`, which no rule accepts. -/
-theorem open_empty_record_unparsable_fails :
-    print .top (.record 0 (.var "r")) = [.lparen, .pipe, .id "r", .rparen] ∧
-    parseTop (print .top (.record 0 (.var "r"))) = none := by
-  have e : print .top (.record 0 (.var "r")) = [.lparen, .pipe, .id "r", .rparen] := by
+/-- FIXED (commit 35ef2d5, was finding `misread:rec[_0:C;]`): `is_tuple` now requires a field
+    count ≠ 1, so the one-field record `{ _0 : Int }` is printed with braces and reads back. -/
+theorem tuple1_roundtrip_fixed :
+    print .top (.record 1 (.rfield "_0" (.con "Int") .rnil))
+      = [.lbrace, .id "_0", .colon, .id "Int", .rbrace] ∧
+    parseAnn (print .top (.record 1 (.rfield "_0" (.con "Int") .rnil)))
+      = some (.record 1 (.rfield "_0" (.con "Int") .rnil)) := by
+  have e : print .top (.record 1 (.rfield "_0" (.con "Int") .rnil))
+      = [.lbrace, .id "_0", .colon, .id "Int", .rbrace] := by
     simp +decide [print, printTypes, printFields, rowTail, typesLen, fieldsLen, identToks, printVariant, ctorArgs, enclose]
   rw [e]
   exact ⟨rfl, by decide⟩
+
+/-- Regression: the rule before 35ef2d5 (`isTupleOld`) chose the tuple syntax for this record,
+    and `(Int)` reads back as `Int`. -/
+theorem tuple1_old_rule_fails :
+    isTupleOld (.rfield "_0" (.con "Int") .rnil) = true ∧
+    parseAnn [.lparen, .id "Int", .rparen] = some (.con "Int") := by
+  decide
+
+/-- FIXED (commit 35ef2d5, was finding `unparsable:rec[|C]`): `is_tuple` now requires the row to
+    end in `EmptyRow`, so the open record `{ | r }` is printed with braces and reads back. -/
+theorem open_empty_record_roundtrip_fixed :
+    print .top (.record 0 (.var "r")) = [.lbrace, .pipe, .id "r", .rbrace] ∧
+    parseAnn (print .top (.record 0 (.var "r"))) = some (.record 0 (.var "r")) := by
+  have e : print .top (.record 0 (.var "r")) = [.lbrace, .pipe, .id "r", .rbrace] := by
+    simp +decide [print, printTypes, printFields, rowTail, typesLen, fieldsLen, identToks, printVariant, ctorArgs, enclose]
+  rw [e]
+  exact ⟨rfl, by decide⟩
+
+/-- Regression: the old rule chose the tuple syntax, `( | r)`, which no rule accepts. -/
+theorem open_empty_record_old_rule_fails :
+    isTupleOld (.var "r") = true ∧ parseTop [.lparen, .pipe, .id "r", .rparen] = none := by
+  decide
+
+/-- FINDING `misread:gadt-ctor-implicit-arg`: the grammar overwrites the `ArgType` of every arrow
+    on a GADT constructor's spine (grammar.lalrpop:401-408, `ctorize`), so `| A : [Int] -> T` is
+    printed faithfully but read back as `| A : Int -> T`. -/
+theorem gadt_implicit_arg_misread_fails :
+    parseTop (print .top (.variant (.rfield "A" (.fn true (.con "Int") (.con "T")) .rnil)))
+      = some (.variant (.rfield "A" (.fn false (.con "Int") (.con "T")) .rnil)) := by
+  rw [show print .top (.variant (.rfield "A" (.fn true (.con "Int") (.con "T")) .rnil))
+      = [.pipe, .id "A", .colon, .lbracket, .id "Int", .rbracket, .arrow, .id "T"] by
+    simp +decide [print, printVariant, ctorArgs, enclose, isSimple]]
+  decide
 
 /-- FINDING `unparsable:record-split-row`: when the row is a chain of two `ExtendRow` nodes
     (here `{x} | {y}`) the comma test `i + 1 != fields.len()` (mod.rs:2931) uses the length of the
@@ -178,20 +206,13 @@ theorem unsplit_row_roundtrip_fixed :
     simp +decide [print, printTypes, printFields, rowTail, typesLen, fieldsLen, identToks, printVariant, ctorArgs, enclose]]
   decide
 
-/-- What a fixed `is_tuple` (at least two fields, closed row) would print for the one-field
-    record reads back as that record. -/
-theorem tuple1_braces_roundtrip_fixed :
-    parseAnn [.lbrace, .id "_0", .colon, .id "Int", .rbrace]
-      = some (.record 1 (.rfield "_0" (.con "Int") .rnil)) := by
-  decide
-
 /-! ### Non-vacuity -/
 
 def tInt : Ty := .con "Int"
 def tA : Ty := .var "a"
 
-example : Core tInt := Core.con _ (by decide)
-example : Core tA := Core.var _ (by decide)
+example : Core tInt := by simp +decide [Core, core, tInt]
+example : Core tA := by simp +decide [Core, core, tA]
 
 /-- `forall a . (a -> Int) -> [Option a] -> Map (Option a) (forall b . b)` -/
 def sample : Ty :=
@@ -200,13 +221,8 @@ def sample : Ty :=
       (.fn true (.app (.con "Option") tA)
         (.app (.app (.con "Map") (.app (.con "Option") tA)) (.all ["b"] (.var "b")))))
 
-example : Core sample := by
-  unfold sample tA tInt
-  refine Core.all _ _ _ (Core.fn _ _ _ (Core.fn _ _ _ (Core.var _ (by decide)) (Core.con _ (by decide)))
-    (Core.fn _ _ _ (Core.app _ _ (Core.con _ (by decide)) rfl (Core.var _ (by decide)))
-      (Core.app _ _ (Core.app _ _ (Core.con _ (by decide)) rfl
-        (Core.app _ _ (Core.con _ (by decide)) rfl (Core.var _ (by decide)))) rfl
-        (Core.all _ _ _ (Core.var _ (by decide))))))
+theorem sample_core : Core sample := by
+  simp +decide [Core, core, sample, tA, tInt, headLike]
 
 example : (print .top sample).map Tok.text =
     ["forall", "a", ".", "(", "a", "->", "Int", ")", "->", "[", "Option", "a", "]", "->",
@@ -214,13 +230,43 @@ example : (print .top sample).map Tok.text =
   simp +decide [sample, tA, tInt, print, enclose, Tok.text]
 
 example : parseAnn (print .top sample) = some sample :=
-  roundtrip_annotation_partial sample (by
-    unfold sample tA tInt
-    exact Core.all _ _ _ (Core.fn _ _ _ (Core.fn _ _ _ (Core.var _ (by decide)) (Core.con _ (by decide)))
-      (Core.fn _ _ _ (Core.app _ _ (Core.con _ (by decide)) rfl (Core.var _ (by decide)))
-        (Core.app _ _ (Core.app _ _ (Core.con _ (by decide)) rfl
-          (Core.app _ _ (Core.con _ (by decide)) rfl (Core.var _ (by decide)))) rfl
-          (Core.all _ _ _ (Core.var _ (by decide)))))))
+  roundtrip_annotation_partial sample sample_core
+
+/-- `{ x : Int, (+) : a -> (Int, a, ()) | r } -> { _0 : Int }`: a record with an operator field
+    and a row variable, a 3-tuple, the unit type and a one-field `_0` record. -/
+def sampleRec : Ty :=
+  .fn false
+    (.record 2 (.rfield "x" tInt (.rfield "+" (.fn false tA
+      (.record 3 (.rfield "_0" tInt (.rfield "_1" tA (.rfield "_2" (.record 0 .rnil) .rnil)))))
+      (.var "r"))))
+    (.record 1 (.rfield "_0" tInt .rnil))
+
+theorem sampleRec_core : Core sampleRec := by
+  simp +decide [Core, core, rowOK, sampleRec, tA, tInt, fieldsLen]
+
+example : (print .top sampleRec).map Tok.text =
+    ["{", "x", ":", "Int", ",", "(", "+", ")", ":", "a", "->", "(", "Int", ",", "a", ",", "(", ")", ")",
+     "|", "r", "}", "->", "{", "_0", ":", "Int", "}"] := by
+  simp +decide [sampleRec, tA, tInt, print, printTypes, printFields, rowTail, typesLen, identToks,
+    enclose, Tok.text]
+
+example : parseAnn (print .top sampleRec) = some sampleRec :=
+  roundtrip_annotation_partial sampleRec sampleRec_core
+
+/-- `| Some a | None | Mk : forall x . x -> T x .. r` -/
+def sampleVariant : Ty :=
+  .rfield "Some" (.fn false tA .opaque)
+    (.rfield "None" .opaque
+      (.rfield "Mk" (.all ["x"] (.fn false (.var "x") (.app (.con "T") (.var "x")))) (.var "r")))
+
+example : parseTop (print .top (.variant sampleVariant)) = some (.variant sampleVariant) :=
+  roundtrip_variant_top_partial sampleVariant
+    (by simp +decide [sampleVariant, vrowOK, ctorOK, core, ctorize, tA, headLike])
+    ⟨_, _, _, rfl⟩
+
+example : (print .top (.variant sampleVariant)).map Tok.text =
+    ["|", "Some", "a", "|", "None", "|", "Mk", ":", "forall", "x", ".", "x", "->", "T", "x", "..", "r"] := by
+  simp +decide [sampleVariant, tA, print, printVariant, ctorArgs, isSimple, enclose, Tok.text]
 
 example : FollowsTop [.rparen] := ⟨trivial, by simp [NoAtom, atomStart], trivial⟩
 
